@@ -1,4 +1,5 @@
 #!/bin/sh
+export HCSYM_EVIDENCE_DIR=/tmp/hcsym-scratch-evidence; mkdir -p $HCSYM_EVIDENCE_DIR
 # tools/benign_test.sh <prop> <diff> : apply a behaviour-preserving change to /repo, run the quick check, revert.
 # The check must exit 0 and print no VIOLATION line.
 prop=$1; diff=$2
